@@ -8,6 +8,7 @@ var Registry = map[string]func(*core.Run){
 	"C02": C02,
 	"C03": C03,
 	"C06": C06,
+	"C07": C07,
 	"C08": C08,
 	"C09": C09,
 	"C10": C10,
